@@ -29,6 +29,10 @@ type vec struct {
 	Wire   hx.B   `json:"wire"`
 	Text   hx.B   `json:"text"`
 	Valid  bool   `json:"valid"`
+	PText  hx.B   `json:"ptext"`  // text of the name without its first label (context of packCtx)
+	PValid bool   `json:"pvalid"`
+	Lead   int    `json:"lead"`  // classification: leading labels of the name that are fine on their own
+	PLead  int    `json:"plead"` // the same for the parent
 	// helpers
 	Count  int     `json:"count"`
 	Split  []int   `json:"split"`
@@ -109,6 +113,88 @@ func replay(path string) {
 	sum.Print()
 }
 
+// expand reads the name at off in buf, following compression pointers, and returns it uncompressed
+// (an independent reader: only the RFC 1035 s.4.1.4 framing, bounded hops).
+func expand(buf []byte, off int) ([]byte, error) {
+	var out []byte
+	for hops := 0; ; {
+		if off >= len(buf) {
+			return nil, fmt.Errorf("offset %d beyond the %d octets written", off, len(buf))
+		}
+		c := int(buf[off])
+		switch {
+		case c == 0:
+			return append(out, 0), nil
+		case c < 64:
+			if off+1+c > len(buf) {
+				return nil, fmt.Errorf("label at %d runs past the octets written", off)
+			}
+			out = append(out, buf[off:off+1+c]...)
+			off += 1 + c
+		case c >= 192:
+			if off+1 >= len(buf) {
+				return nil, fmt.Errorf("pointer at %d cut short", off)
+			}
+			t := (c-192)<<8 | int(buf[off+1])
+			if t >= off {
+				return nil, fmt.Errorf("pointer at %d to %d does not point backwards", off, t)
+			}
+			if hops++; hops > 130 {
+				return nil, fmt.Errorf("more than 130 pointers")
+			}
+			off = t
+		default:
+			return nil, fmt.Errorf("reserved label type %#x at %d", c, off)
+		}
+	}
+}
+
+// packCtx packs, with compression and ONE compression map as a message would, the parent of a name, the name,
+// and the name again.  Whether a name is accepted may not depend on what the map holds (C03: the packer accepts
+// exactly the valid names, so the library never emits a name it would itself reject), a refused name may leave
+// nothing behind, and what is written must expand to the name's wire form.
+func packCtx(v *vec, text string, valid bool, wire []byte, cls string, sum *hx.Summary) {
+	buf := make([]byte, 4096)
+	m := map[string]int{}
+	off := 12 // as in a message: names start behind the header
+	hist := "clean-map" // what the shared map has been through: part of the finding key
+	step := func(tag, name string, want bool, w []byte, lead int) {
+		o2, err := dns.PackDomainName(name, buf, off, m, true)
+		tag = tag + ":" + hist
+		if err != nil {
+			if lead > 0 {
+				hist = "after-refusal-behind-good-labels"
+			} else if hist == "clean-map" {
+				hist = "after-refusal-at-first-label"
+			}
+		}
+		if (err == nil) != want {
+			k := "names/pack-ctx-rejects-valid:" + tag
+			if err == nil {
+				k = "names/pack-ctx-accepts-invalid:" + tag
+			}
+			sum.Mis(k, fmt.Sprintf("PackDomainName(%q, compress, shared map) as %s of the sequence parent,name,name: err=%v, spec accept=%v", name, tag, err, want), v)
+		}
+		if err != nil {
+			return
+		}
+		if got, e := expand(buf[:o2], off); e != nil {
+			sum.Mis("names/pack-ctx-unreadable:"+tag, fmt.Sprintf("octets written for %q (%s): %v", name, tag, e), v)
+		} else if want && w != nil && !bytes.Equal(got, w) {
+			sum.Mis("names/pack-ctx-octets:"+tag, fmt.Sprintf("octets written for %q (%s) expand to %v, spec %v", name, tag, got, w), v)
+		} else if _, _, e := dns.UnpackDomainName(buf[:o2], off); e != nil && len(got) <= 255 {
+			sum.Mis("names/pack-ctx-own-output-rejected:"+tag, fmt.Sprintf("UnpackDomainName refuses what PackDomainName wrote for %q (%s): %v", name, tag, e), v)
+		}
+		off = o2
+	}
+	_ = cls
+	if len(v.PText) > 0 {
+		step("parent", v.PText.String(), v.PValid, nil, v.PLead)
+	}
+	step("name", text, valid, wire, v.Lead)
+	step("again", text, valid, wire, v.Lead)
+}
+
 func one(v *vec, sum *hx.Summary, seen map[string]bool) {
 	switch v.Kind {
 	case "string":
@@ -147,6 +233,11 @@ func one(v *vec, sum *hx.Summary, seen map[string]bool) {
 		if v.Accept && err == nil && !bytes.Equal(w, v.Wire.Bytes()) {
 			sum.Mis("names/pack-octets", fmt.Sprintf("PackDomainName(%q)=%v, spec %v", s, w, v.Wire), v)
 		}
+		var wv []byte
+		if v.Accept {
+			wv = v.Wire.Bytes()
+		}
+		packCtx(v, s, v.Accept, wv, badClass(v), sum)
 	case "name":
 		seen["n:"+v.Text.String()] = true
 		text := v.Text.String()
@@ -182,6 +273,7 @@ func one(v *vec, sum *hx.Summary, seen map[string]bool) {
 		if v.Valid && err == nil && !bytes.Equal(w, wire) {
 			sum.Mis("names/pack-octets", fmt.Sprintf("PackDomainName(%q) differs from the spec's octets", text), v)
 		}
+		packCtx(v, text, v.Valid, wire, class(v.Labels), sum)
 		if v.Valid {
 			if !dns.IsFqdn(text) {
 				sum.Mis("names/isfqdn", fmt.Sprintf("IsFqdn(%q)=false", text), v)
